@@ -181,6 +181,12 @@ public:
         d1::call_itt_notify(d1::acquired, &tail_counter);
         padded_page *p = head_page.load(std::memory_order_relaxed);
         __TBB_ASSERT( p, nullptr );
+        if (!is_valid_page(p)) {
+            // The page for this ticket was not allocated (see invalidate_page): it is an invalid entry
+            --base.n_invalid_entries;
+            head_counter.store(k + queue_rep_type::n_queue, std::memory_order_release);
+            return false;
+        }
         size_type index = modulo_power_of_two( k/queue_rep_type::n_queue, items_per_page );
         bool success = false;
         {
